@@ -1,9 +1,12 @@
 // Package c06 checks property C06: every fact store behaves as a set of ground atoms.
 //
-// A case is a store configuration (a tree of store kinds with the facts the read-only layers hold), a small
-// domain of constants and a history of operations. The history is interpreted against the real store and
-// against a reference set model keyed by a canonical, structural key (val.V.Key); neither Hash() nor
-// Equals() nor String() of the library take part in the oracle.
+// A case holds 2-4 live stores (a primary and 1-3 secondary ones; each a tree of store kinds with the facts
+// its read-only layers hold), a small domain of constants and a history of operations on these stores,
+// including merges between them in any direction. The history is interpreted against the real stores and
+// against one reference set model per store, keyed by a canonical, structural key (val.V.Key); neither
+// Hash() nor Equals() nor String() of the library take part in the oracle. After every step every live
+// store is read back completely and compared with its model, so a store that changes because another one
+// was modified (shared state after a Merge) is noticed.
 package c06
 
 import (
@@ -22,9 +25,13 @@ import (
 	"verif/val"
 )
 
-// exclK08 is the named exclusion of known finding K08 (hash-keyed stores conflate hash-equal atoms): while
-// it is active, two values with equal library hash are generated only when every store of the case is a
-// MultiIndexedArrayInMemoryStore (which compares atoms inside a hash bucket) or a wrapper over such stores.
+// exclK08 is the named exclusion of known finding K08 (hash-keyed containers conflate distinct atoms with
+// equal Atom.Hash()). While it is active, a step (or a set-up fact) is removed from the generated case when
+// it would make a store that contains a hash-keyed container deal with an atom whose Atom.Hash() equals
+// that of a DIFFERENT atom the store holds in some layer: Add / Remove / Contains of such an atom, and a
+// Merge that would bring such an atom. Hash-equal CONSTANTS stay in the domain, pattern queries are never
+// removed (a bucket is re-checked with Matches), and stores built only from MultiIndexedArrayInMemoryStore
+// (which compares atoms inside a bucket) get the colliding atoms as well. See excludeK08.
 const exclK08 = "K08-hash-colliders"
 
 // preds is the fixed universe of predicates: two of arity 0 and two symbols at two arities each.
@@ -73,20 +80,22 @@ type Col struct {
 	I int    `json:"i,omitempty"`
 }
 
-// Step is one operation of the history.
+// Step is one operation of the history on store Stores[On]; a merge reads Stores[From] (From != On).
 type Step struct {
-	Op    string `json:"op"`             // add remove contains query merge preds count
-	Atom  *Atom  `json:"atom,omitempty"` // add remove contains
-	Pred  int    `json:"pred,omitempty"` // query
-	Cols  []Col  `json:"cols,omitempty"` // query
-	Other *Store `json:"other,omitempty"`
+	Op   string `json:"op"` // add remove contains query merge preds count
+	On   int    `json:"on,omitempty"`
+	From int    `json:"from,omitempty"` // merge
+	Atom *Atom  `json:"atom,omitempty"` // add remove contains
+	Pred int    `json:"pred,omitempty"` // query
+	Cols []Col  `json:"cols,omitempty"` // query
 }
 
-// Case is the replay format.
+// Case is the replay format. Stores[0] is the primary store, the others are secondary stores: merge
+// sources and merge targets that stay alive and take their own operations.
 type Case struct {
-	Dom   []val.V `json:"dom"`
-	Store Store   `json:"store"`
-	Steps []Step  `json:"steps"`
+	Dom    []val.V `json:"dom"`
+	Stores []Store `json:"stores"`
+	Steps  []Step  `json:"steps"`
 }
 
 func (c Case) hash() uint64 {
@@ -106,7 +115,7 @@ type matom struct {
 	key  string
 }
 
-// model is the reference: a set of ground atoms split by where the store keeps them.
+// model is the reference for one store: a set of ground atoms split by where the store keeps them.
 //
 //	base – atoms held by read-only layers (never change)
 //	w    – atoms held by the write layer and by no read-only layer
@@ -115,14 +124,18 @@ type matom struct {
 type model struct {
 	base, w, mo map[string]matom
 	sorted      []matom // cache of all(); reset by touch()
+	canRemove   bool    // the write path ends in a store with Remove
+	exact       bool    // EstimateFactCount is documented to be exact
+	hashKeyed   bool    // some leaf of the tree keys atoms by Atom.Hash() without comparing them (K08)
+}
+
+func newModel(s Store) *model {
+	return &model{base: map[string]matom{}, w: map[string]matom{}, mo: map[string]matom{},
+		canRemove: supportsRemove(s), exact: exact(s), hashKeyed: hashKeyed(s)}
 }
 
 // touch must be called after every change of base or w.
 func (m *model) touch() { m.sorted = nil }
-
-func newModel() *model {
-	return &model{base: map[string]matom{}, w: map[string]matom{}, mo: map[string]matom{}}
-}
 
 func (m *model) visible(key string) bool {
 	if _, ok := m.base[key]; ok {
@@ -134,7 +147,7 @@ func (m *model) visible(key string) bool {
 
 func (m *model) size() int { return len(m.base) + len(m.w) }
 
-// all returns the visible atoms sorted by key.
+// all returns the visible atoms sorted by key (callers must not modify the result).
 func (m *model) all() []matom {
 	if m.sorted != nil {
 		return m.sorted
@@ -151,6 +164,109 @@ func (m *model) all() []matom {
 	return res
 }
 
+func (m *model) hasPred(p int) bool {
+	for _, a := range m.all() {
+		if a.p == p {
+			return true
+		}
+	}
+	return false
+}
+
+// The transitions of the model. They are shared by the oracle (check) and by the K08 exclusion
+// (excludeK08), which has to know what each store holds when it decides about a step.
+
+// setup records a set-up fact; false if some layer holds it already (the fact is then not added).
+func (m *model) setup(a matom, writable bool) bool {
+	if m.visible(a.key) {
+		return false
+	}
+	if writable {
+		m.w[a.key] = a
+	} else {
+		m.base[a.key] = a
+	}
+	m.touch()
+	return true
+}
+
+// add: true iff the atom was absent; it then belongs to the write layer.
+func (m *model) add(a matom) bool {
+	if m.visible(a.key) {
+		return false
+	}
+	m.w[a.key] = a
+	m.touch()
+	return true
+}
+
+// Classes of a Remove.
+const (
+	rmWrite      = iota // the write layer holds the atom: must return true, the atom is gone
+	rmMergedOver        // a read-only layer holds it and a Merge may have copied it: either answer, still visible
+	rmBaseOnly          // only a read-only layer holds it: must return false, still visible
+	rmAbsent            // must return false
+)
+
+func (m *model) remove(a matom) int {
+	if _, ok := m.w[a.key]; ok {
+		delete(m.w, a.key)
+		m.touch()
+		return rmWrite
+	}
+	if _, ok := m.base[a.key]; ok {
+		if _, ok := m.mo[a.key]; ok {
+			delete(m.mo, a.key)
+			return rmMergedOver
+		}
+		return rmBaseOnly
+	}
+	return rmAbsent
+}
+
+// merge: everything src shows becomes visible; returns the number of new atoms and whether some atom of a
+// read-only layer was merged over.
+func (m *model) merge(src *model) (added int, overBase bool) {
+	for _, a := range src.all() {
+		if _, ok := m.base[a.key]; ok {
+			m.mo[a.key] = a
+			overBase = true
+			continue
+		}
+		if _, ok := m.w[a.key]; !ok {
+			m.w[a.key] = a
+			added++
+		}
+	}
+	m.touch()
+	return added, overBase
+}
+
+// walkInits visits the set-up facts of the tree in the order mk adds them (read layers, then the
+// write/base child, then the node's own facts). writable: the node lies on the write path of the root.
+func walkInits(s *Store, writable bool, visit func(node *Store, i int, writable bool)) {
+	switch s.Kind {
+	case kMerged:
+		for i := range s.Reads {
+			walkInits(&s.Reads[i], false, visit)
+		}
+		if s.Base != nil {
+			walkInits(s.Base, writable, visit)
+		}
+	case kTeeing:
+		if s.Base != nil {
+			walkInits(s.Base, false, visit)
+		}
+	case kConcurrent:
+		if s.Base != nil {
+			walkInits(s.Base, writable, visit)
+		}
+	}
+	for i := range s.Init {
+		visit(s, i, writable)
+	}
+}
+
 type env struct {
 	run    *stats.Run
 	f      stats.Failer
@@ -158,6 +274,27 @@ type env struct {
 	canon  []int          // index of the first domain value with the same key
 	consts []ast.Constant // built once per canonical index (the same value is never built twice)
 	labels map[string]bool
+}
+
+// newEnv builds every distinct value exactly once (building a map twice may give two representations,
+// K22/C08).
+func newEnv(run *stats.Run, f stats.Failer, c Case) *env {
+	e := &env{run: run, f: f, c: c, labels: map[string]bool{}}
+	first := map[string]int{}
+	e.canon = make([]int, len(c.Dom))
+	e.consts = make([]ast.Constant, len(c.Dom))
+	for i, v := range c.Dom {
+		k := v.Key()
+		if j, ok := first[k]; ok {
+			e.canon[i] = j
+			e.consts[i] = e.consts[j]
+			continue
+		}
+		first[k] = i
+		e.canon[i] = i
+		e.consts[i] = v.Build()
+	}
+	return e
 }
 
 func (e *env) label(l string) { e.labels[l] = true }
@@ -271,6 +408,13 @@ func leafKinds(s Store, into map[string]bool) {
 	}
 }
 
+// hashKeyed: the tree contains a store that keys atoms by Atom.Hash() without comparing them.
+func hashKeyed(s Store) bool {
+	lk := map[string]bool{}
+	leafKinds(s, lk)
+	return lk[kSimple] || lk[kIndexed] || lk[kMulti] || lk[kTemporal] || lk[kTemporalAt]
+}
+
 func describe(s Store) string {
 	switch s.Kind {
 	case kMerged:
@@ -278,8 +422,15 @@ func describe(s Store) string {
 		for _, r := range s.Reads {
 			rs = append(rs, describe(r))
 		}
-		return "merged([" + strings.Join(rs, ",") + "]," + describe(*s.Base) + ")"
+		b := "?"
+		if s.Base != nil {
+			b = describe(*s.Base)
+		}
+		return "merged([" + strings.Join(rs, ",") + "]," + b + ")"
 	case kTeeing, kConcurrent:
+		if s.Base == nil {
+			return s.Kind + "(?)"
+		}
 		return s.Kind + "(" + describe(*s.Base) + ")"
 	}
 	return s.Kind
@@ -336,7 +487,7 @@ func (e *env) mk(s Store, writable bool, m *model, depth int) factstore.FactStor
 	}
 	for _, a := range s.Init {
 		ma := e.matom(a)
-		if m.visible(ma.key) {
+		if !m.setup(ma, writable) {
 			continue
 		}
 		var got bool
@@ -344,12 +495,6 @@ func (e *env) mk(s Store, writable bool, m *model, depth int) factstore.FactStor
 		if !got {
 			e.run.Failf(e.f, "set-up of %s: Add(%s) returned false although no layer holds the atom", describe(s), e.show(ma))
 		}
-		if writable {
-			m.w[ma.key] = ma
-		} else {
-			m.base[ma.key] = ma
-		}
-		m.touch()
 	}
 	return st
 }
@@ -393,6 +538,19 @@ func (e *env) compare(st factstore.ReadOnlyFactStore, query ast.Atom, must, may 
 	})
 	if err != nil {
 		e.run.Failf(e.f, "%s: GetFacts returned an error: %v", what(), err)
+	}
+	if len(order) == len(must) && len(must) == len(may) {
+		// fast path: same number of distinct atoms, each once, each expected
+		ok := true
+		for _, a := range must {
+			if got[a.key] != 1 {
+				ok = false
+				break
+			}
+		}
+		if ok {
+			return len(order)
+		}
 	}
 	sort.Strings(order)
 	allowed := map[string]bool{}
@@ -447,75 +605,106 @@ func (e *env) pattern(s Step) (ast.Atom, string) {
 	return ast.Atom{Predicate: preds[s.Pred], Args: args}, preds[s.Pred].Symbol + "(" + strings.Join(parts, ", ") + ")"
 }
 
-// check interprets the history of c against the store and the set model.
+func (e *env) storeIndex(i, step int) int {
+	if i < 0 || i >= len(e.c.Stores) {
+		e.f.Fatalf("harness: step %d refers to store %d, the case has %d stores", step, i, len(e.c.Stores))
+	}
+	return i
+}
+
+// freshShare remembers that a Merge brought facts of predicate pred from store src to store dst while dst
+// had no fact of that predicate: the situation in which an implementation could be tempted to share a
+// container instead of copying it.
+type freshShare struct{ src, dst, pred int }
+
+// check interprets the history of c against the stores and their set models.
 func check(run *stats.Run, f stats.Failer, c Case) verdict {
-	e := &env{run: run, f: f, c: c, labels: map[string]bool{}}
-	// Every distinct value is built exactly once (building a map twice may give two representations, K22/C08).
-	first := map[string]int{}
-	e.canon = make([]int, len(c.Dom))
-	e.consts = make([]ast.Constant, len(c.Dom))
-	for i, v := range c.Dom {
-		k := v.Key()
-		if j, ok := first[k]; ok {
-			e.canon[i] = j
-			e.consts[i] = e.consts[j]
-			continue
+	e := newEnv(run, f, c)
+	if len(c.Stores) == 0 {
+		f.Fatalf("harness: case without stores")
+	}
+	stores := make([]factstore.FactStore, len(c.Stores))
+	models := make([]*model, len(c.Stores))
+	name := func(i int) string {
+		if i == 0 {
+			return "store 0 = " + describe(c.Stores[0])
 		}
-		first[k] = i
-		e.canon[i] = i
-		e.consts[i] = v.Build()
+		return fmt.Sprintf("store %d = %s", i, describe(c.Stores[i]))
 	}
+	for i, s := range c.Stores {
+		models[i] = newModel(s)
+		stores[i] = e.mk(s, true, models[i], 0)
+		lk := map[string]bool{}
+		leafKinds(s, lk)
+		for k := range lk {
+			e.label("leaf:" + k)
+		}
+		if i == 0 {
+			e.label("kind:" + s.Kind)
+		} else {
+			e.label("secondary:" + s.Kind)
+		}
+		if len(models[i].base) > 0 {
+			e.label("base-facts")
+		}
+	}
+	e.label(fmt.Sprintf("stores:%d", len(c.Stores)))
+	scanAll := func(when func() string) {
+		for i := range stores {
+			i := i
+			e.scan(stores[i], models[i], func() string { return when() + ": " + name(i) })
+		}
+	}
+	scanAll(func() string { return "after set-up" })
 
-	m := newModel()
-	st := e.mk(c.Store, true, m, 0)
-	canRemove := supportsRemove(c.Store)
-	isExact := exact(c.Store)
-	e.label("kind:" + c.Store.Kind)
-	lk := map[string]bool{}
-	leafKinds(c.Store, lk)
-	for k := range lk {
-		e.label("leaf:" + k)
-	}
-	if len(m.base) > 0 {
-		e.label("base-facts")
-	}
-	e.scan(st, m, func() string { return "after set-up of " + describe(c.Store) })
-
-	removed := map[string]bool{} // atoms a Remove took out of the set at some point
-	var fReadd, fMerge, fNonFirst bool
+	removed := map[string]bool{} // store index + atom key: a Remove took the atom out of that store's set
+	var shares []freshShare
+	var fReadd, fMerge, fNonFirst, fTwin, fShareMut bool
 	usedStructured, usedArity0, twoArities := false, false, false
+	// mutated: store on changed its set on predicate p
+	mutated := func(on, p int) {
+		for _, sh := range shares {
+			if sh.pred == p && (sh.src == on || sh.dst == on) {
+				fShareMut = true
+				if sh.src == on {
+					e.label("mutation-of-source-after-merge-into-absent-pred")
+				} else {
+					e.label("mutation-of-dest-after-merge-into-absent-pred")
+				}
+			}
+		}
+	}
 
 	for i, s := range c.Steps {
 		i, s := i, s
-		whenf := func() string { return fmt.Sprintf("step %d (%s) on %s", i, s.Op, describe(c.Store)) }
-		when := lazy(whenf)
+		on := e.storeIndex(s.On, i)
+		st, m := stores[on], models[on]
+		when := lazy(func() string { return fmt.Sprintf("step %d (%s) on %s", i, s.Op, name(on)) })
 		switch s.Op {
 		case "add":
 			if s.Atom == nil {
 				f.Fatalf("harness: step %d without atom", i)
 			}
 			a := e.matom(*s.Atom)
-			want := !m.visible(a.key)
+			where := "absent"
+			if _, ok := m.base[a.key]; ok {
+				where = "held by a read-only layer"
+			} else if _, ok := m.w[a.key]; ok {
+				where = "held by the write layer"
+			}
 			var got bool
 			e.guard("Add", func() { got = st.Add(e.build(a)) })
-			if got != want {
-				where := "absent"
-				if _, ok := m.base[a.key]; ok {
-					where = "held by a read-only layer"
-				} else if _, ok := m.w[a.key]; ok {
-					where = "held by the write layer"
-				}
+			if want := where == "absent"; got != want {
 				run.Failf(f, "%s: Add(%s) returned %v, but the atom is %s; set = %s", when, e.show(a), got, where, e.showAll(m.all()))
 			}
-			if want {
-				m.w[a.key] = a
-				m.touch()
-				if removed[a.key] {
+			if m.add(a) {
+				if removed[strconv.Itoa(on)+a.key] {
 					fReadd = true
 					e.label("re-add-after-remove")
 				}
 				e.label("add-new")
-			} else if _, ok := m.base[a.key]; ok {
+				mutated(on, a.p)
+			} else if where == "held by a read-only layer" {
 				e.label("add-present-in-base")
 			} else {
 				e.label("add-present")
@@ -524,41 +713,37 @@ func check(run *stats.Run, f stats.Failer, c Case) verdict {
 			if s.Atom == nil {
 				f.Fatalf("harness: step %d without atom", i)
 			}
-			if !canRemove {
+			if !m.canRemove {
 				continue // the configuration has no Remove (temporal adapter on the write path)
 			}
 			a := e.matom(*s.Atom)
 			remover, ok := st.(factstore.FactStoreWithRemove)
 			if !ok {
-				f.Fatalf("harness: %s does not implement FactStoreWithRemove", describe(c.Store))
+				f.Fatalf("harness: %s does not implement FactStoreWithRemove", name(on))
 			}
 			var got bool
 			e.guard("Remove", func() { got = remover.Remove(e.build(a)) })
-			_, inW := m.w[a.key]
-			_, inBase := m.base[a.key]
-			_, inMO := m.mo[a.key]
-			switch {
-			case inW:
+			before := m.all()
+			switch m.remove(a) {
+			case rmWrite:
 				if !got {
-					run.Failf(f, "%s: Remove(%s) returned false, but the write layer holds the atom; set = %s", when, e.show(a), e.showAll(m.all()))
+					run.Failf(f, "%s: Remove(%s) returned false, but the write layer holds the atom; set = %s", when, e.show(a), e.showAll(before))
 				}
-				delete(m.w, a.key)
-				m.touch()
-				removed[a.key] = true
+				removed[strconv.Itoa(on)+a.key] = true
 				e.label("remove-present")
-			case inBase && inMO:
+				mutated(on, a.p)
+			case rmMergedOver:
 				// A Merge brought an atom that a read-only layer holds; whether the write layer got a copy
 				// (Teeing: pinned by TestTeeingAddContainsMerge) is not part of the property: either answer.
-				delete(m.mo, a.key)
 				e.label("remove-merged-over-base")
-			case inBase:
+			case rmBaseOnly:
 				if got {
 					run.Failf(f, "%s: Remove(%s) returned true, but only a read-only layer holds the atom (nothing can have been removed)", when, e.show(a))
 				}
 				e.label("remove-base-only")
 			default:
 				if got {
-					run.Failf(f, "%s: Remove(%s) returned true, but the atom is absent; set = %s", when, e.show(a), e.showAll(m.all()))
+					run.Failf(f, "%s: Remove(%s) returned true, but the atom is absent; set = %s", when, e.show(a), e.showAll(before))
 				}
 				e.label("remove-absent")
 			}
@@ -603,17 +788,24 @@ func check(run *stats.Run, f stats.Failer, c Case) verdict {
 				}
 			}
 			firstIsVar := len(s.Cols) > 0 && s.Cols[0].K != "c"
+			// twinMiss[ci]: some stored atom of the predicate agrees with the pattern everywhere except in
+			// the constant column ci, where it holds a different value with the same library hash – the
+			// atom shares every hash bucket of that column with the atoms asked for and must be told apart.
+			twinMiss := map[int]bool{}
 			for _, a := range m.all() {
 				if a.p != s.Pred {
 					continue
 				}
 				okConst, okVars := true, true
+				nMiss, missCol := 0, -1
 				bind := map[int]int{}
 				for ci, col := range s.Cols {
 					switch col.K {
 					case "c":
 						if e.canon[col.I] != a.args[ci] {
 							okConst = false
+							nMiss++
+							missCol = ci
 						}
 					case "v":
 						if prev, ok := bind[col.I]; ok && prev != a.args[ci] {
@@ -627,6 +819,9 @@ func check(run *stats.Run, f stats.Failer, c Case) verdict {
 					if okVars {
 						must = append(must, a)
 					}
+				} else if nMiss == 1 && e.consts[e.canon[s.Cols[missCol].I]].Hash() == e.consts[a.args[missCol]].Hash() {
+					// (the library hash only classifies the case for the statistics, it is not part of the verdict)
+					twinMiss[missCol] = true
 				}
 			}
 			n := e.compare(st, q, must, may, func() string { return fmt.Sprintf("%s: query %s", when, text) })
@@ -644,6 +839,17 @@ func check(run *stats.Run, f stats.Failer, c Case) verdict {
 					fNonFirst = true
 				}
 			}
+			for ci := range twinMiss {
+				fTwin = true
+				if ci == 0 {
+					e.label("query-hash-twin-stored-col0")
+				} else {
+					e.label("query-hash-twin-stored-col>0")
+				}
+				if m.hashKeyed {
+					e.label("query-hash-twin-on-hash-keyed-store")
+				}
+			}
 			if repeated {
 				e.label("query-repeated-var")
 			}
@@ -654,54 +860,55 @@ func check(run *stats.Run, f stats.Failer, c Case) verdict {
 				e.label("query-arity0")
 			}
 		case "merge":
-			if s.Other == nil {
-				f.Fatalf("harness: step %d without store", i)
+			from := e.storeIndex(s.From, i)
+			if from == on {
+				f.Fatalf("harness: step %d merges store %d into itself", i, on)
 			}
-			om := newModel()
-			other := e.mk(*s.Other, true, om, 1)
-			e.scan(other, om, func() string { return fmt.Sprintf("%s: merge source %s after its set-up", when, describe(*s.Other)) })
-			e.guard("Merge", func() { st.Merge(other) })
-			added := 0
-			for _, a := range om.all() {
-				if _, ok := m.base[a.key]; ok {
-					m.mo[a.key] = a
-					e.label("merge-over-base")
-					continue
-				}
-				if _, ok := m.w[a.key]; !ok {
-					m.w[a.key] = a
-					added++
+			src := models[from]
+			for p := range preds {
+				if src.hasPred(p) && !m.hasPred(p) {
+					shares = append(shares, freshShare{src: from, dst: on, pred: p})
+					e.label("merge-into-absent-pred")
 				}
 			}
-			m.touch()
-			cross := s.Other.Kind != c.Store.Kind
+			e.guard("Merge", func() { st.Merge(stores[from]) })
+			added, over := m.merge(src)
+			if over {
+				e.label("merge-over-base")
+			}
+			switch {
+			case from == 0:
+				e.label("merge-primary-into-secondary")
+			case on == 0:
+				e.label("merge-secondary-into-primary")
+			default:
+				e.label("merge-secondary-into-secondary")
+			}
 			if added > 0 {
 				e.label("merge-new-facts")
-				if cross {
+				if c.Stores[from].Kind != c.Stores[on].Kind {
 					fMerge = true
 					e.label("merge-across-kinds")
 				}
 			} else {
 				e.label("merge-nothing-new")
 			}
-			// the source must be left as it was
-			e.scan(other, om, func() string { return fmt.Sprintf("%s: merge source %s after the merge", when, describe(*s.Other)) })
 		case "preds":
 			e.checkPreds(st, m, when)
 		case "count":
 			var got int
 			e.guard("EstimateFactCount", func() { got = st.EstimateFactCount() })
-			if isExact && got != m.size() {
+			if m.exact && got != m.size() {
 				run.Failf(f, "%s: EstimateFactCount() = %d, the set has %d atoms: %s", when, got, m.size(), e.showAll(m.all()))
 			}
-			if !isExact && got < m.size() {
+			if !m.exact && got < m.size() {
 				run.Failf(f, "%s: EstimateFactCount() = %d is below the number of atoms %d: %s", when, got, m.size(), e.showAll(m.all()))
 			}
 		default:
 			f.Fatalf("harness: unknown op %q", s.Op)
 		}
-		// after every step the store, read completely, is the model
-		e.scan(st, m, func() string { return "after " + when.String() })
+		// after every step every live store, read completely, is its model
+		scanAll(func() string { return "after " + when.String() })
 		e.checkPreds(st, m, lazy(func() string { return "after " + when.String() }))
 		have := map[int]bool{}
 		for _, a := range m.all() {
@@ -746,10 +953,24 @@ func check(run *stats.Run, f stats.Failer, c Case) verdict {
 	if fNonFirst {
 		e.label("NT:nonfirst-query-hit")
 	}
+	if fTwin {
+		e.label("NT:query-with-stored-hash-twin")
+	}
+	if fShareMut {
+		e.label("NT:mutation-after-merge-into-absent-pred")
+	}
 	v := verdict{}
-	// Non-trivial: a non-first-column query with a non-empty answer, a merge across kinds that brought new
-	// facts, and (where the store can remove) a remove followed by a successful re-add.
-	v.nontrivial = fNonFirst && fMerge && (fReadd || !canRemove)
+	// Non-trivial: at least three of: a non-first-column query with a non-empty candidate set; a merge across
+	// kinds that brought new facts; a remove followed by a successful re-add; a query with a constant whose
+	// hash twin is stored in that column; a change of one of the two stores of a merge that introduced a
+	// predicate to the destination.
+	feats := 0
+	for _, b := range []bool{fNonFirst, fMerge, fReadd, fTwin, fShareMut} {
+		if b {
+			feats++
+		}
+	}
+	v.nontrivial = feats >= 3
 	for l := range e.labels {
 		v.labels = append(v.labels, l)
 	}
@@ -765,11 +986,6 @@ func (e *env) checkPreds(st factstore.ReadOnlyFactStore, m *model, when fmt.Stri
 	for _, p := range got {
 		seen[p]++
 	}
-	listed := make([]string, 0, len(got))
-	for _, p := range got {
-		listed = append(listed, fmt.Sprintf("%s/%d", p.Symbol, p.Arity))
-	}
-	sort.Strings(listed)
 	// Which entry a defective implementation loses or repeats can depend on Go map order; the verdict text
 	// names only what the model determines (rapid shrinks only failures that repeat literally).
 	dup := false
@@ -778,53 +994,177 @@ func (e *env) checkPreds(st factstore.ReadOnlyFactStore, m *model, when fmt.Stri
 			dup = true
 		}
 	}
-	if dup {
-		e.f.Logf("ListPredicates() = %v", listed)
-		e.run.Failf(e.f, "%s: ListPredicates() lists a predicate more than once (%d entries)", when, len(listed))
-	}
-	var need []string
 	lacking := false
+	var need []string
 	for p := range preds {
-		has := false
-		for _, a := range m.all() {
-			if a.p == p {
-				has = true
-			}
-		}
-		if has {
+		if m.hasPred(p) {
 			need = append(need, fmt.Sprintf("%s/%d", preds[p].Symbol, preds[p].Arity))
 			if seen[preds[p]] == 0 {
 				lacking = true
 			}
 		}
 	}
-	if lacking {
-		e.f.Logf("ListPredicates() = %v", listed)
-		sort.Strings(need)
-		e.run.Failf(e.f, "%s: ListPredicates() does not list every predicate that has facts: %v have facts, %d predicates are listed; set = %s",
-			when, need, len(listed), e.showAll(m.all()))
+	if !dup && !lacking {
+		return
 	}
+	listed := make([]string, 0, len(got))
+	for _, p := range got {
+		listed = append(listed, fmt.Sprintf("%s/%d", p.Symbol, p.Arity))
+	}
+	sort.Strings(listed)
+	e.f.Logf("ListPredicates() = %v", listed)
+	if dup {
+		e.run.Failf(e.f, "%s: ListPredicates() lists a predicate more than once (%d entries)", when, len(listed))
+	}
+	sort.Strings(need)
+	e.run.Failf(e.f, "%s: ListPredicates() does not list every predicate that has facts: %v have facts, %d predicates are listed; set = %s",
+		when, need, len(listed), e.showAll(m.all()))
+}
+
+// panicFailer serves excludeK08, which only runs the models.
+type panicFailer struct{}
+
+func (panicFailer) Fatalf(format string, args ...any) { panic(fmt.Sprintf(format, args...)) }
+func (panicFailer) Logf(format string, args ...any)   {}
+
+// excludeK08 is the known-finding exclusion: it returns c without the set-up facts and steps that would
+// make a store with a hash-keyed container handle an atom whose Atom.Hash() equals that of a different
+// atom the store holds (in any layer), and the number of facts / steps removed. It runs the set models
+// only (the same transitions as check), so that it knows what each store holds at each step. The result
+// is an ordinary case: check and replays execute it literally.
+func excludeK08(c Case) (Case, int) {
+	e := newEnv(nil, panicFailer{}, c)
+	hashes := map[string]uint64{}
+	hash := func(a matom) uint64 {
+		h, ok := hashes[a.key]
+		if !ok {
+			h = e.build(a).Hash()
+			hashes[a.key] = h
+		}
+		return h
+	}
+	// collides: m holds a different atom with the same hash
+	collides := func(m *model, a matom) bool {
+		if !m.hashKeyed {
+			return false
+		}
+		for _, b := range m.all() {
+			if b.key != a.key && hash(b) == hash(a) {
+				return true
+			}
+		}
+		return false
+	}
+	dropped := 0
+	out := Case{Dom: c.Dom}
+	models := make([]*model, len(c.Stores))
+	for i := range c.Stores {
+		s := cloneStore(c.Stores[i])
+		m := newModel(s)
+		models[i] = m
+		drop := map[*Store]map[int]bool{}
+		walkInits(&s, true, func(node *Store, k int, writable bool) {
+			a := e.matom(node.Init[k])
+			if collides(m, a) {
+				if drop[node] == nil {
+					drop[node] = map[int]bool{}
+				}
+				drop[node][k] = true
+				dropped++
+				return
+			}
+			m.setup(a, writable)
+		})
+		for node, ks := range drop {
+			var keep []Atom
+			for k, a := range node.Init {
+				if !ks[k] {
+					keep = append(keep, a)
+				}
+			}
+			node.Init = keep
+		}
+		out.Stores = append(out.Stores, s)
+	}
+	for _, s := range c.Steps {
+		if s.On < 0 || s.On >= len(models) {
+			out.Steps = append(out.Steps, s)
+			continue
+		}
+		m := models[s.On]
+		switch s.Op {
+		case "add", "remove", "contains":
+			if s.Atom == nil {
+				break
+			}
+			a := e.matom(*s.Atom)
+			if collides(m, a) {
+				dropped++
+				continue
+			}
+			if s.Op == "add" {
+				m.add(a)
+			} else if s.Op == "remove" && m.canRemove {
+				m.remove(a)
+			}
+		case "merge":
+			if s.From < 0 || s.From >= len(models) || s.From == s.On {
+				break
+			}
+			src := models[s.From]
+			bad := false
+			if m.hashKeyed {
+				seen := map[uint64]string{}
+				for _, a := range src.all() {
+					if k, ok := seen[hash(a)]; (ok && k != a.key) || collides(m, a) {
+						bad = true
+						break
+					}
+					seen[hash(a)] = a.key
+				}
+			}
+			if bad {
+				dropped++
+				continue
+			}
+			m.merge(src)
+		}
+		out.Steps = append(out.Steps, s)
+	}
+	return out, dropped
+}
+
+func cloneStore(s Store) Store {
+	c := s
+	c.Init = append([]Atom(nil), s.Init...)
+	c.Reads = nil
+	for _, r := range s.Reads {
+		c.Reads = append(c.Reads, cloneStore(r))
+	}
+	if s.Base != nil {
+		b := cloneStore(*s.Base)
+		c.Base = &b
+	}
+	return c
 }
 
 func TestC06(t *testing.T) {
 	run := stats.Begin("C06", "TestC06")
 	defer run.Finish(t)
 	rapid.Check(t, func(rt *rapid.T) {
-		c, info := genCase(rt)
+		c := genCase(rt)
+		dropped := 0
+		if stats.Exclusion(exclK08) {
+			c, dropped = excludeK08(c)
+		}
 		run.Current(c)
 		v := check(run, rt, c)
-		if info.redirected {
-			run.Excluded(exclK08 + ":colliders-only-on-array-stores")
-		}
-		for i := 0; i < info.dropped; i++ {
-			run.Excluded(exclK08 + ":hash-equal-value-dropped")
-		}
-		if info.colliders {
-			v.labels = append(v.labels, "colliders-in-domain")
+		for i := 0; i < dropped; i++ {
+			run.Excluded(exclK08 + ":step-or-fact-with-hash-equal-atom-on-hash-keyed-store")
 		}
 		run.Case(v.nontrivial, c.hash(), v.labels...)
 		if v.nontrivial {
-			run.Sample(c.Store.Kind, c)
+			run.Sample(c.Stores[0].Kind, c)
 		}
 	})
 }
